@@ -278,10 +278,18 @@ def nuc_key(f, shared):
 
 
 def mat_key(f):
+    """material, clause and failure mode: a different un-normalisation / a different kind of bad value is a different key"""
+    import re
+
     if f["clause"] in ("KnownNuclides", "FractionsInRange"):
         return "mat:%s:%s:%s" % (f["who"], f["clause"], f["col"])
     if f["clause"] == "Normalised":
-        return "mat:%s:Normalised:%s" % (f["who"], f["col"])
+        m = re.search(r"sumPpb \|-> (-?\d+)", f["detail"])
+        return "mat:%s:Normalised:%s%s" % (f["who"], f["col"], ":" + m.group(1) if m else "")
+    m = re.search(r'status \|-> "([^"]*)", micro \|-> (-?\d+)', f["detail"])
+    if m:
+        mode = m.group(1) if m.group(1) != "ok" else "zero" if int(m.group(2)) == 0 else "negative"
+        return "mat:%s:%s:%s" % (f["who"], f["clause"], mode)
     return "mat:%s:%s" % (f["who"], f["clause"])
 
 
